@@ -15,11 +15,13 @@ import Dashu.Model.Text.Spec
     rational/src/third_party/serde.rs  RBig / Relaxed (binary: struct (numerator, denominator);
                                        text: `Display` / `Repr::from_str_with_radix_prefix`), `reduce`, `reduce2`
 
-  Decoders return `none` for "the deserializer returns an error".  Where the current code
-  constructs a non-canonical value or panics instead (zero denominator, float precision smaller
-  than the significand, exponent overflow while normalising) the decoder here states what C19
-  requires (`none`); the `…AsIs` variants beside them mirror the code as it is and are used for the
-  counterexample theorems only.
+  Decoders return `none` for "the deserializer returns an error".  Since /repo 78fd274 (rational:
+  zero denominator rejected) and 9f519ab (float: `repr_from_fields` / `fbig_from_fields` — infinities
+  kept, precision checked against the significand, exponent overflow of the normalisation rejected)
+  the binary decoders here mirror the code.  The `…AsIs` variants mirror the code *before* those
+  commits and are used only for the counterexample theorems that show the checks are needed.  Still
+  open: the same exponent overflow on the text path (`from_str_native`), where the decoder here states
+  what C19 requires (`none`) and the finding entry absorbs the input class.
 -/
 namespace Dashu.Model.Serde
 open Dashu.Model.Text (printSpec printSpecInt parseDefaultSpec parseRadixSpec digits)
